@@ -11,10 +11,10 @@ Definition verified_execute_executeStep : string :=
   "(Call executeOneStep)(Add x0 len)(Send x1)(Range {(Go executeStep)})".
 
 Definition verified_plan_generatePlans : string :=
-  "(Range {(Append plans)(MakeChan x0 maxConcurrentSteps)(MakeChan x1 0)(Defer (Close x1))(Add x2 1)(Send x0)(Go {(Range {(Call .GetQueryer)(If {(Append payload.Parent.Then)})(Call .extractSelection)(If {(Send x1)(Continue)})(Range {(Append variableDefs)})(Call plannerBuildQuery)(If {(Send x1)(Continue)})(Done x2)})})(MakeChan x3 0)(Defer (Close x3))(Go {(Wait x2)(Send x3)})(Select (On (Recv x1) {(Return)})(On (Recv x3) {(Close x0)}))})(Return)".
+  "(Range {(Append plans)(For {(Call .GetQueryer)(If {(Append payload.Parent.Then)})(Call .extractSelection)(If {(Return)})(Range {(Append variableDefs)})(Call plannerBuildQuery)(If {(Return)})})})(Return)".
 
 Definition verified_plan_extractSelection : string :=
-  "(Call .groupSelectionSet)(If {(Return)})(Range {(If {(Continue)})(If {(Call .wrapSelectionSet)(If {(Return)})})(Add x0.stepWg 1)(Send x0.stepCh)})(If {(Append locationFields[config.parentLocation])(StoreAt locationFields[config.parentLocation])})(If {(Return)})(Range {(Switch (Case {(If {(Call copyStrings)(Append insertionPoint)(Call .extractSelection)(If {(Return)})})(Append finalSelection)})(Case {(Append finalSelection)(Call .extractSelection)(If {(Return)})(If {(Append config.step.FragmentDefinitions)})})(Case {(Append newWrapper)(Call .extractSelection)(If {(Return)})(Append finalSelection)}))})(Return)".
+  "(Call .groupSelectionSet)(If {(Return)})(Range {(If {(Continue)})(If {(Call .wrapSelectionSet)(If {(Return)})})(Append *config.steps)})(If {(Append locationFields[config.parentLocation])(StoreAt locationFields[config.parentLocation])})(If {(Return)})(Range {(Switch (Case {(If {(Call copyStrings)(Append insertionPoint)(Call .extractSelection)(If {(Return)})})(Append finalSelection)})(Case {(Append finalSelection)(Call .extractSelection)(If {(Return)})(If {(Append config.step.FragmentDefinitions)})})(Case {(Append newWrapper)(Call .extractSelection)(If {(Return)})(Append finalSelection)}))})(Return)".
 
 Definition verified_http_GraphQLHandler : string :=
   "(Call parseRequest)(If {(Call formatErrors)(Return)})(Range {(If {(Call formatErrorsWithCode)(StoreAt results[opNum])(Continue)})(Call .GetPlans)(If {(Call formatErrorsWithCode)(StoreAt results[opNum])(Continue)})(Add x0 1)(Go g.executeRequest)})(Wait x0)(If {(Call formatErrors)(If {(Call formatErrors)})})(Call emitResponse)".
@@ -31,7 +31,42 @@ Definition verified_cache_Retrieve : string :=
 Definition verified_gateway_Execute : string :=
   "(If {} else {(If {(Return)})(Call .ForOperation)(If {(Return)})})(Call .Execute)(Range {(If {(Return)})})(Return)".
 
+Definition verified_writes_gateway_Execute : string :=
+  "".
+
+Definition verified_writes_execute_Execute : string :=
+  "".
+
+Definition verified_writes_execute_executeStep : string :=
+  "".
+
+Definition verified_writes_execute_executeOneStep : string :=
+  "L:variables[""id""] ; L:variables[variable]".
+
+Definition verified_writes_execute_findSelection : string :=
+  "".
+
+Definition verified_writes_execute_executorFindInsertionPoints : string :=
+  "L:newBranchSet[i] ; L:oldBranch[i] ; L:oldBranch[i][pointI]".
+
+Definition verified_writes_execute_executorExtractValue : string :=
+  "L:recentObj[pointData.Field] ; L:recentObj[pointField]".
+
+Definition verified_writes_execute_executorInsertObject : string :=
+  "".
+
+Definition verified_writes_execute_executorMergeObject : string :=
+  "P:target[key]".
+
+Definition verified_writes_execute_executorMergeValue : string :=
+  "L:existingList[i]".
+
+Definition verified_writes_execute_executorGetPointData : string :=
+  "".
+
+Definition verified_writes_middlewares_scrubInsertionIDs : string :=
+  "DL:obj".
+
 Definition verified_const_MessageMissingCachedQuery : string := """PersistedQueryNotFound""".
 Definition verified_const_defaultTTL : string := "10 * 24 * time.Hour".
-Definition verified_const_maxConcurrentSteps : string := "50".
 Definition verified_const_maxResultBuffer : string := "10".
